@@ -100,7 +100,18 @@ PROPS = {
         rule=("rapid-generated (frames, FrameInfo, parameter object). Non-trivial: a rate target is in effect (Rate>0 or TargetRatio>0, so the PCRD path runs) and the image has >= 2 distinct values. "
               "Distinct = hash of the case."),
         assumptions=COMMON_ASSUME,
-        quick=dict(shards=16, checks=300, extra=["TestQuota"], timeout=900),
+        quick=dict(shards=16, checks=1000, extra=["TestQuota"], timeout=900),
         thorough=dict(shards=16, checks=2500, extra=["TestQuota", dict(run="TestGrid", shards=16)], timeout=3400),
+    ),
+    "C19": dict(
+        pkg="c19",
+        technique="property-based round-trip testing (rapid) over tile grids",
+        level_text="Exploration: seeded rapid generators over image x tile size drawn from shape classes (power of two, odd, even, last tile one sample wide, smaller than a code-block, arbitrary; 1-16 tiles per axis) x components {1,3} x precision {8,12,16} x levels 0-5 x layers 1-3, including global rate allocation with a final lossless layer.",
+        level_note="Round trip through the library's own encoder/decoder; trusts the Go runtime.",
+        rule=("rapid-generated (image, tiled reversible configuration); noise-dominant content. Non-trivial: at least 2 tiles. Distinct = hash of the case. "
+              "Labels (odd-tile-origin, partial-right/bottom, tile<codeblock, tiles-in-row>=3, global-rd) are computed from the drawn geometry."),
+        assumptions=COMMON_ASSUME,
+        quick=dict(shards=16, checks=300, extra=[], timeout=900),
+        thorough=dict(shards=16, checks=2500, extra=[], timeout=3400),
     ),
 }
